@@ -254,8 +254,10 @@ fn add_stream<O: AddObj>(
         // in-place overwrite through Clone::clone_from, as Vec::clone_from / Option::clone_from / pooled objects do
         let r = guard(|| {
             let mut k2 = *k;
-            k2.reverse();
-            k2[0] ^= 0x5a;
+            if (pseed / 7) % 4 < 2 {
+                k2.reverse();
+                k2[0] ^= 0x5a;
+            } // else: the target is an earlier, used state of the same connection (same session key)
             let (mut o1, mut o2) = (kind.pair)(k2);
             let mut junk = [0x33u8; 23];
             o1.enc(&mut junk);
@@ -1170,8 +1172,10 @@ fn wrath_connection(rep: &mut Rep, k: [u8; 40], rng: &mut Rng, total_len: usize,
             // both ends move into objects that served another connection: in-place overwrite through Clone::clone_from
             let r = guard(|| {
                 let mut k2 = k;
-                k2.reverse();
-                k2[3] ^= 0xa5;
+                if left % 2 == 0 {
+                    k2.reverse();
+                    k2[3] ^= 0xa5;
+                } // else: an earlier, used state of the same connection (same session key)
                 let (mut c2, mut s2) = objs::wrath_pair(k2);
                 let mut junk = [0x44u8; 19];
                 c2.encrypt(&mut junk);
